@@ -381,3 +381,36 @@ Proof.
   destruct (create_claim s perm (cm_pid m) (cm_val m) (cm_cid m) (cm_content m)) as [s'| |] eqn:E; try (injection Ed as _ Hc; discriminate).
   injection Ed as <- Hc. destruct (Z.eqb_spec (status_of s' (cm_pid m)) 1) as [E1|]; [|discriminate]. injection Hc as <-. lia.
 Qed.
+
+(* ---- the blacklist is what the administrator's last accepted message says ---- *)
+Lemma mem_true_iff x l : mem x l = true <-> In x l.
+Proof.
+  unfold mem. rewrite existsb_exists. split; [intros (y & Hy & E); apply Z.eqb_eq in E; subst; exact Hy|intros H; exists x; split; [exact H|apply Z.eqb_refl]].
+Qed.
+
+Lemma set_blacklist_effect s is_admin sender addrs s' :
+  set_blacklist s is_admin sender addrs = Ok s' ->
+  is_admin = true /\ br_blacklist s' = addrs /\ br_bank s' = br_bank s /\ br_prophecies s' = br_prophecies s /\
+  br_paused s' = br_paused s /\ br_peggy s' = br_peggy s /\ br_accounts s' = br_accounts s.
+Proof.
+  unfold set_blacklist. destruct (mem sender (br_accounts s)); cbn [negb]; [|discriminate].
+  destruct is_admin; cbn [negb]; [|discriminate]. intros [= <-]. repeat split; reflexivity.
+Qed.
+
+Lemma set_blacklist_refused s sender addrs : exists e, set_blacklist s false sender addrs = e /\ is_ok e = false.
+Proof. eexists. split; [reflexivity|]. unfold set_blacklist. destruct (mem sender (br_accounts s)); reflexivity. Qed.
+
+(* after an accepted update every listed account is refused by lock and burn, whatever else the message says; an account
+   that is not listed is not stopped by the blacklist *)
+Lemma blacklist_takes_effect s sender addrs s' :
+  set_blacklist s true sender addrs = Ok s' ->
+  (forall a is_burn sd amount symbol ceth, In a addrs -> is_ok (lock_or_burn s' is_burn sd a amount symbol ceth) = false) /\
+  (forall a, ~ In a addrs -> mem a (br_blacklist s') = false).
+Proof.
+  intros H. apply set_blacklist_effect in H. destruct H as (_ & Hb & _). split.
+  - intros a is_burn sd amount symbol ceth Hin. unfold lock_or_burn.
+    destruct ((amount <=? 0) || (ceth <? LOCK_GAS_COST)); [reflexivity|]. destruct (br_paused s'); [reflexivity|].
+    destruct (Bool.eqb is_burn (negb (mem symbol (br_peggy s')))); [reflexivity|]. destruct (negb (mem sd (br_accounts s'))); [reflexivity|].
+    rewrite Hb. rewrite (proj2 (mem_true_iff a addrs) Hin). reflexivity.
+  - intros a Hn. rewrite Hb. destruct (mem a addrs) eqn:E; [|reflexivity]. apply mem_true_iff in E. contradiction.
+Qed.
